@@ -1,6 +1,9 @@
 package props
 
 import (
+	"sort"
+	"strings"
+
 	"golang.org/x/tools/go/ssa"
 
 	"verif/checker/an"
@@ -179,6 +182,52 @@ func c05MissesOK(fn *ssa.Function, v ssa.Value, depth int) (bool, string) {
 		return false, "no key is ever added on a failed local lookup"
 	}
 	return true, ""
+}
+
+// c05EntryName names a site by the exported API entry points of the package
+// through which it is reached ("blockservice.GetBlock-path"), so that the key
+// of a finding does not change when unexported helpers are renamed or split.
+func c05EntryName(fns []*ssa.Function, fn *ssa.Function) string {
+	top := func(f *ssa.Function) *ssa.Function {
+		for f.Parent() != nil {
+			f = f.Parent()
+		}
+		return f
+	}
+	start := top(fn)
+	seen := map[*ssa.Function]bool{start: true}
+	work := []*ssa.Function{start}
+	names := map[string]bool{}
+	for len(work) > 0 {
+		f := work[0]
+		work = work[1:]
+		if f.Object() != nil && f.Object().Exported() {
+			names[f.Name()] = true
+			continue
+		}
+		for _, g := range fns {
+			for _, call := range an.AllCalls(g) {
+				callee := call.Common().StaticCallee()
+				if callee == nil {
+					// method values / bound closures passed around are not followed
+					continue
+				}
+				if callee == f && !seen[top(g)] {
+					seen[top(g)] = true
+					work = append(work, top(g))
+				}
+			}
+		}
+	}
+	if len(names) == 0 {
+		return an.FuncName(fn)
+	}
+	var ns []string
+	for n := range names {
+		ns = append(ns, n)
+	}
+	sort.Strings(ns)
+	return "blockservice." + strings.Join(ns, "+") + "-path"
 }
 
 var c05StoreMemo = map[*ssa.Function]int{}
@@ -471,7 +520,7 @@ func runC05(c *an.Ctx) {
 				}
 			}
 			what := an.Callee(org).Name
-			c.Check(ok, "O3", "R-FLOW", name, "exchange."+what+"-result-vs-request", org.Pos(),
+			c.Check(ok, "O3", "R-FLOW", c05EntryName(fns, fn), "exchange."+what+"-result-vs-request", org.Pos(),
 				"exchange results are stored/delivered only under a check of their own CID against the request",
 				"the block(s) returned by Fetcher."+what+" are written to the blockstore and handed to the caller without any condition on their own Cid(): an exchange that answers with a different or unrequested block makes the service store and return a block that was not asked for")
 		}
